@@ -9,7 +9,7 @@ NotImplemented) is skipped.
 import z3
 
 from pyvc.vals import Val, NONE, I, B, R, Z, ref, fresh, cls_of, ArgPack, Cls, STRINGS, TupleV, RUNNING, FINISHED
-from pyvc.verify import Unit, sym_inst, sym_val, user_calls
+from pyvc.verify import Unit, sym_inst, sym_val, user_calls, new_inst
 from pyvc.symexec import Raise, LoopSpec
 from pyvc.b_ops import py_op, py_op_raises, py_op_exc
 from pyvc import static as S
@@ -271,8 +271,7 @@ def _post_fproxy(engine, st, ctx, out):
 
 
 def _setup_pinit(engine, st):
-    oid = st.alloc("ProxyFuture")
-    st.assume(cls_of(z3.IntVal(oid)) == engine.tag("ProxyFuture"))
+    oid = engine.concrete_id(new_inst(engine, st, "ProxyFuture").t)        # fresh, private, every field UNSET
     me = Z(ref(oid), INST("ProxyFuture"))
     d = sym_val(engine, st, "future", "delegate")
     tmo = sym_val(engine, st, "any", "timeout")
